@@ -18,7 +18,7 @@ func VerifH_backoff() {
 	max := time.Duration(verifInt("max"))
 	r := verifInt("retries")
 	verifAssume(base > 0 && base <= max && max < 1<<53) // exact int<->float64 region
-	verifAssume(max <= base*25)                          // at most 8 multiplications by 1.5 (covers the deployed 200ms / 5s)
+	verifAssume(max <= base*25)                         // at most 8 multiplications by 1.5 (covers the deployed 200ms / 5s)
 	verifAssume(r >= 0 && r < 1<<62)
 	res := backoff(base, max, r)
 	verifReach("after")
